@@ -21,7 +21,7 @@ RULE = ('Contractive affine BlockSpecs (q <= 0.6, 1-5 simultaneous variables, la
         'by IterativeMachineGenerator.main() into a per-case temporary directory, imported under a unique module name and '
         'run. Non-trivial: block without user-defined t, with >= 1 lag and >= 1 exogenous list. Distinct: sha1 of the spec.')
 ASSUMPTIONS = [
-    'residual bound as in C02 with the generated module\'s absolute stop rule: 4*tol*(1+Lambda)*max(1,|x|)',
+    'residual bound from the generated module\'s absolute stop rule (sum of |changes| <= tol): 4*tol*(1+Lambda), no magnitude factor',
     'series are compared with the in-process solver only when all shared variables agree at k=0 '
     '(the in-process solver additionally propagates constants at k=0)',
 ]
@@ -30,8 +30,8 @@ ASSUMPTIONS = [
 @st.composite
 def case(draw):
     spec = draw(blocks.system(n_sim=(1, 5), q_hi=60, lags=(0, 3), exos=(0, 2), consts=(0, 2), aliases=(0, 1), leaves=(0, 2),
-                              horizon=(1, 5), ic_prob=20, tols=('1e-6', '1e-8', '1e-4', None), user_t=(False, False, True),
-                              alias_ic=False))
+                              horizon=(1, 5), ic_prob=20, tols=('1e-4', '1e-6', '1e-8', '1e-3', None, '0.01'), user_t=(False, False, True),
+                              alias_ic=False, const_mag=draw(st.sampled_from([5000, 5000, 500000]))))
     spec['gen_reduction'] = draw(st.sampled_from([False, False, True]))
     # the step counter k may be used by any equation, and the time axis may be defined without it
     tmode = draw(st.sampled_from(['as-drawn', 'lagged-t', 'as-drawn', 'lagged-t']))
@@ -117,7 +117,9 @@ def run(spec):
             scale = max([1.0] + [abs(v) for v in env.values()])
             for name, rhs in eqs.items():
                 want = expr.float_eval(rhs, env)
-                bound = 4.0 * tol * (1.0 + lam.get(name, 1.0)) * scale
+                # the module stops when the ABSOLUTE sum of changes is <= tol, so x - g(x) = g(old) - g(new) is bounded by
+                # Lambda*tol with no magnitude factor (plus float rounding)
+                bound = 4.0 * tol * (1.0 + lam.get(name, 1.0)) + 1e-12 * scale
                 if not abs(series[name][k] - want) <= bound:
                     raise Violation('C20/residual', '%s = %s at k=%d: module value %r, equation gives %r (bound %.3g)' %
                                     (name, rhs, k, series[name][k], want, bound))
